@@ -67,7 +67,7 @@ def build_sandbox(base):
 SYMLINK_REACHABLE = {("root2", "via_link.txt"), ("root2", "linkdir/inner2.txt"), ("alias_target2", "x2.txt")}
 SEGS = ["a.txt", "sub", "b.txt", "deep", "c.txt", ".", "..", "", ".dotfile", ".hidden", "link_in", "dirlink_in", "link_out", "dirlink_out", "abs_link_out", "dirlink_out2", "secret.txt", "dir", "inner.txt",
         "al", "alx", "inroot.txt", "at.txt", "al2", "x.txt", "list", "withindex", "index.html", "root2", "r2.txt", "outside", "outside2", "never.txt", "alias_target", "fifo", "sp ace.txt", SPECIAL, "...", "..;", "root",
-        "per%cent.txt", "pl+us.txt", "utfé.txt", "nonexistent", "leakidx", "inidx", "leakidx", "inidx", "link_root2", "dirlink_root2", "link_root2b", "link_at2", "inner2.txt", "via_link.txt", "x2.txt", "alias_target2", "linkdir", "..\\", "%2e%2e", "..%2f", "%00", "\xff\xfe"]
+        "per%cent.txt", "pl+us.txt", "utfé.txt", "nonexistent", "leakidx", "inidx", "leakidx", "inidx", "a", "l", "l2", "su", "b", "link_root2", "dirlink_root2", "link_root2b", "link_at2", "inner2.txt", "via_link.txt", "x2.txt", "alias_target2", "linkdir", "..\\", "%2e%2e", "..%2f", "%00", "\xff\xfe"]
 
 
 def gen_path(rnd):
@@ -120,6 +120,27 @@ def canonical_expect(path, aliases):
     return "root", p.lstrip("/")
 
 
+def is_listing_body(body):
+    return b"Index of" in body and b"<table>" in body
+
+
+def resolve_reference(p):
+    """what the property means by 'after ..', '.', repeated slashes are resolved': purely lexical, never above the top"""
+    out = []
+    for seg in p.split(b"/"):
+        if seg in (b"", b"."):
+            continue
+        if seg == b"..":
+            if out:
+                out.pop()
+            continue
+        out.append(seg)
+    return b"/" + b"/".join(out)
+
+
+SYMLINK_NAMES = (b"link_in", b"dirlink_in", b"link_out", b"dirlink_out", b"abs_link_out", b"dirlink_out2", b"link_to_root", b"link_root2", b"dirlink_root2", b"link_root2b", b"link_at2", b"leakidx", b"inidx")
+
+
 def worker(args):
     basedir, exe, seed, ncases, windex = args
     rnd = random.Random(seed)
@@ -160,6 +181,15 @@ def worker(args):
                     if rnd.random() < 0.2:
                         path = ("/alx/inroot.txt" if rnd.random() < 0.5 else "/al").encode()
                     wire = path
+                    if rnd.random() < 0.4 and len(path) > 3:
+                        # a dot-segment detour that CUTS a name in two ("/al/at.txt" -> "/a/zz/../l/at.txt"): resolved lexically this is
+                        # another path (another area when an alias name was cut); it must not be glued back together
+                        canonical = False
+                        k = rnd.randrange(2, len(path) - 1)
+                        if path[k - 1:k] != b"/" and path[k:k + 1] != b"/":
+                            path = path[:k] + rnd.choice([b"/zz/../", b"/sub/../", b"/a/b/../../", b"/./q/../"]) + path[k:]
+                            cnt("requests_cutting_a_name_with_a_detour")
+                        wire = path
                 else:
                     path = gen_path(rnd)
                     wire = encode_path(rnd, path)
@@ -207,8 +237,23 @@ def worker(args):
                     res["viol"].append({"key": "c13:server-error-%d" % st, "detail": repr(path[:200]), "replay": rp})
                     break
                 found = re.findall(rb"MARK\{[^}]*\}", raw)
+                # which root the resolved path selects: the alias that prefixes it, else the document root
+                seen_by_server = proto.url_decode(wire, plus=False) if not use_scgi else pi
+                if not seen_by_server.startswith(b"/"):
+                    seen_by_server = b"/" + seen_by_server
+                resolved = resolve_reference(seen_by_server.split(b"\0")[0])
+                want_area = "root"
+                for u, a in aliases:
+                    if resolved == u.encode() or resolved.startswith(u.encode() + b"/"):
+                        want_area = a
+                        break
+                through_symlink = any(nm in resolved.split(b"/") for nm in SYMLINK_NAMES)
                 for m in found:
                     area, rel = markers.get(m, ("?", "?"))
+                    if st == 200 and not is_listing_body(body) and area in allowed_areas and area != want_area and (check_symlink or not through_symlink):
+                        res["viol"].append({"key": "c13:served-from-a-root-the-resolved-path-does-not-select", "detail": "request %r resolves to %r, which selects %s, but the contents of %s/%s were returned (aliases=%r check_symlink=%s)" % (path[:200], resolved[:200], want_area, area, rel, aliases, check_symlink), "replay": rp})
+                        break
+                    cnt("area_selection_checked")
                     fpath = os.path.join(box, area, rel)
                     ok = area in allowed_areas
                     if check_symlink:
